@@ -326,6 +326,7 @@ class Executor(Exec):
         st.heap[oid] = val
         ref = VRef(("obj", oid), cls)
         fi = self.repo.find_method(cls, "__init__")
+        c = self.select_variant(st, c, cls, fi, ref, args, kwargs)
         self.call_contract(st, c, ref, args, kwargs, fi, fresh_self=True)
         return ref
 
@@ -378,19 +379,7 @@ class Executor(Exec):
                 c = cand
                 break
         if c is not None:
-            # a second contract of the same body for a PATH argument ("...@path..." keys): chosen when the argument
-            # bound to a bytes / stream / mmap parameter is a path (text) value
-            if fi is not None:
-                try:
-                    bound = self.bind_params(st, fi, c, recv, list(args), dict(kwargs))
-                except Unsupported:
-                    bound = {}
-                if any(isinstance(bound.get(p_), VStr) and str(t_) in ("bytes", "stream", "mmap", "none") for p_, t_ in c.params.items()):
-                    base = c.key.split("@")[0]
-                    for k2, c2 in CONTRACTS.items():
-                        if k2.startswith(base + "@path") and cls in c2.contexts:
-                            c = c2
-                            break
+            c = self.select_variant(st, c, cls, fi, recv, args, kwargs)
             return self.call_contract(st, c, recv, args, kwargs, fi)
         if fi is not None:
             expr = _as_expression(fi.node.body)
@@ -402,6 +391,33 @@ class Executor(Exec):
                     and self.repo.find_method(cls, fi.name) is fi:
                 return self.inline_call(st, fi, recv, args, kwargs)
         raise Unsupported(f"call to {cls}.{name} without contract")
+
+    def select_variant(self, st, c, cls, fi, recv, args, kwargs):
+        """a second contract of the same body for another KIND of argument (keys "...@path...", "...@hex...", "...@be"):
+        chosen when the argument bound to a bytes / stream / none-typed parameter is a path (text) or a hex text, or when
+        a struct-format argument is not the format the contract is written for"""
+        if fi is None:
+            return c
+        try:
+            bound = self.bind_params(st, fi, c, recv, list(args), dict(kwargs))
+        except Unsupported:
+            return c
+        base = c.key.split("@")[0]
+
+        def pick(tag, ok=lambda c2: True):
+            for k2, c2 in CONTRACTS.items():
+                if k2.startswith(base + "@" + tag) and cls in c2.contexts and ok(c2):
+                    return c2
+            return None
+        for p_, t_ in c.params.items():
+            a_ = bound.get(p_)
+            if isinstance(a_, VStructFmt) and str(t_).startswith("struct:") and str(t_) != "struct:" + a_.fmt:
+                c = pick("", lambda c2: c2.params.get(p_) == "struct:" + a_.fmt) or c
+        if any(isinstance(bound.get(p_), VSeq) and bound[p_].kind == "hex" and str(t_) == "none" for p_, t_ in c.params.items()):
+            c = pick("hex") or c
+        if any(isinstance(bound.get(p_), VStr) and str(t_) in ("bytes", "stream", "mmap", "none") for p_, t_ in c.params.items()):
+            c = pick("path") or c
+        return c
 
     def inline_call(self, st, fi, recv, args, kwargs):
         """a helper WITHOUT contract (typically one extracted from a function under contract): its body is executed in
